@@ -132,7 +132,8 @@ func (m *M) putIdentity(r int, kind int) {
 // ---------------------------------------------------------------- scalar classes
 
 var scalarClasses = []string{"zero", "one", "two", "three", "minus_one", "minus_two", "half_up", "half_down",
-	"pow2", "pow2_255", "top_bit_set", "sparse", "dense", "limb_pattern", "near_n", "small", "random", "random"}
+	"pow2", "pow2_255", "top_bit_set", "sparse", "dense", "limb_pattern", "near_n", "small", "random", "random",
+	"word_boundary", "word_structure"}
 
 func (m *M) scalarOf(class string) *big.Int {
 	switch class {
@@ -189,6 +190,9 @@ func (m *M) scalarOf(class string) *big.Int {
 		return new(big.Int).Sub(bigN, big.NewInt(int64(1+m.rng.Intn(5))))
 	case "small":
 		return big.NewInt(int64(m.rng.Intn(1 << 16)))
+	case "word_boundary", "word_structure":
+		v, _ := m.wordScalar()
+		return v
 	default:
 		return m.randBig(bigN)
 	}
@@ -202,4 +206,139 @@ func (m *M) putScalar(r int, class string) *big.Int {
 	m.class("scalar:" + class)
 	m.SSetInt(r, v)
 	return v
+}
+
+// ---------------------------------------------------------------- boundary classes of coordinates
+
+var (
+	cbrtExp = func() *big.Int { e := new(big.Int).Add(bigP, two); return e.Div(e, big.NewInt(9)) }() // p = 7 mod 9
+	rInvP   = new(big.Int).ModInverse(bigR, bigP)
+)
+
+// cbrt returns a cube root of a mod p, or nil.
+func cbrt(a *big.Int) *big.Int {
+	r := new(big.Int).Exp(a, cbrtExp, bigP)
+	if new(big.Int).Exp(r, big.NewInt(3), bigP).Cmp(new(big.Int).Mod(a, bigP)) == 0 {
+		return r
+	}
+	return nil
+}
+
+// pointWithY returns a curve point with the given ordinate, or nil: x = cbrt(y^2 - 7).
+func pointWithY(y *big.Int) (*big.Int, *big.Int) {
+	t := mulmod(y, y, bigP)
+	t.Sub(t, big7).Mod(t, bigP)
+	if x := cbrt(t); x != nil {
+		return x, new(big.Int).Set(y)
+	}
+	return nil, nil
+}
+
+// window returns a value of one of the boundary windows of a 256-bit representation: next to 0, 2^255,
+// (p+1)/2, p, 2^256 - 2^192 (top limb all ones), 2^192, 2^128, 2^64.
+func (m *M) window() (*big.Int, string) {
+	d := big.NewInt(int64(m.rng.Intn(1 << 20)))
+	half := new(big.Int).Rsh(new(big.Int).Add(bigP, one), 1)
+	switch m.rng.Intn(9) {
+	case 0:
+		return d, "lo"
+	case 1:
+		return new(big.Int).Sub(new(big.Int).Lsh(one, 255), new(big.Int).Add(d, one)), "below_2^255"
+	case 2:
+		return new(big.Int).Add(new(big.Int).Lsh(one, 255), d), "above_2^255"
+	case 3:
+		return new(big.Int).Add(half, d), "above_p/2"
+	case 4:
+		return new(big.Int).Sub(half, new(big.Int).Add(d, one)), "below_p/2"
+	case 5:
+		return new(big.Int).Sub(bigP, new(big.Int).Add(d, one)), "below_p"
+	case 6:
+		t := new(big.Int).Sub(bigR, new(big.Int).Lsh(one, 192))
+		return t.Add(t, m.randBig(new(big.Int).Lsh(one, 190))), "top_limb_ones"
+	case 7:
+		return new(big.Int).Add(new(big.Int).Lsh(one, uint(64*(1+m.rng.Intn(3)))), d), "above_word_boundary"
+	default:
+		t := new(big.Int).Lsh(one, uint(64*(1+m.rng.Intn(3))))
+		return t.Sub(t, new(big.Int).Add(d, one)), "below_word_boundary"
+	}
+}
+
+// boundaryPoint returns a curve point one of whose coordinates -- as a canonical integer or in the
+// Montgomery domain (v * 2^256 mod p, what the limbs hold), or the Montgomery form of y^2 -- lies in a
+// boundary window.  Carry / final-subtraction slips in hand-written limb code live in such windows.
+func (m *M) boundaryPoint() (*big.Int, *big.Int, string) {
+	for {
+		w, wc := m.window()
+		w.Mod(w, bigP)
+		switch m.rng.Intn(5) {
+		case 0: // canonical x in the window
+			if y := curveY(w); y != nil {
+				return w, y, "x_canon_" + wc
+			}
+		case 1: // Montgomery form of x in the window
+			x := mulmod(w, rInvP, bigP)
+			if y := curveY(x); y != nil {
+				return x, y, "x_mont_" + wc
+			}
+		case 2: // canonical y in the window
+			if x, y := pointWithY(w); x != nil {
+				return x, y, "y_canon_" + wc
+			}
+		case 3: // Montgomery form of y in the window
+			if x, y := pointWithY(mulmod(w, rInvP, bigP)); x != nil {
+				return x, y, "y_mont_" + wc
+			}
+		case 4: // Montgomery form of y^2 in the window
+			y2 := mulmod(w, rInvP, bigP)
+			if y := new(big.Int).ModSqrt(y2, bigP); y != nil {
+				if x, yy := pointWithY(y); x != nil {
+					return x, yy, "y2_mont_" + wc
+				}
+			}
+		}
+	}
+}
+
+// wordScalar returns scalars structured by 64-bit words: powers of two at and around word boundaries,
+// and values whose words are independently empty, short, or full.
+func (m *M) wordScalar() (*big.Int, string) {
+	switch m.rng.Intn(3) {
+	case 0:
+		e := 64*(1+m.rng.Intn(3)) + m.rng.Intn(3) - 1 // 63,64,65,127,128,129,191,192,193
+		v := new(big.Int).Lsh(one, uint(e))
+		if m.rng.Intn(2) == 0 {
+			v.Add(v, big.NewInt(int64(m.rng.Intn(8))))
+		}
+		return v, "word_boundary_pow2"
+	case 1:
+		v := new(big.Int).Lsh(one, uint(m.rng.Intn(256)))
+		v.Add(v, new(big.Int).Lsh(one, uint(m.rng.Intn(256))))
+		v.Add(v, big.NewInt(int64(m.rng.Intn(4))))
+		return v.Mod(v, bigN), "two_bits"
+	default:
+		v := new(big.Int)
+		top := m.rng.Intn(4)
+		for i := 3; i >= 0; i-- {
+			var w uint64
+			if i <= top {
+				switch m.rng.Intn(5) {
+				case 0:
+					w = 0
+				case 1:
+					w = uint64(1 + m.rng.Intn(255))
+				case 2:
+					w = 1 << uint(m.rng.Intn(64))
+				case 3:
+					w = ^uint64(0)
+				default:
+					w = m.rng.Uint64()
+				}
+				if i == top && w == 0 {
+					w = uint64(1) << uint(m.rng.Intn(64))
+				}
+			}
+			v.Lsh(v, 64).Or(v, new(big.Int).SetUint64(w))
+		}
+		return v.Mod(v, bigN), "word_structure"
+	}
 }
